@@ -923,7 +923,9 @@ func HandleTranOldPostNews(cc *hotline.ClientConn, t *hotline.Transaction) (res 
 	newsPost := fmt.Sprintf(newsTemplate+"\r", cc.UserName, time.Now().Format(newsDateTemplate), t.GetField(hotline.FieldData).Data)
 	newsPost = strings.ReplaceAll(newsPost, "\n", "\r")
 
+	cc.Server.TextMU.Lock()
 	_, err := cc.Server.MessageBoard.Write([]byte(newsPost))
+	cc.Server.TextMU.Unlock()
 	if err != nil {
 		cc.Logger.Error("error writing news post", "err", err)
 		return nil
@@ -1260,9 +1262,11 @@ func HandleGetMsgs(cc *hotline.ClientConn, t *hotline.Transaction) (res []hotlin
 		return cc.NewErrReply(t, "You are not allowed to read news.")
 	}
 
+	cc.Server.TextMU.Lock()
 	_, _ = cc.Server.MessageBoard.Seek(0, 0)
 
 	newsData, err := io.ReadAll(cc.Server.MessageBoard)
+	cc.Server.TextMU.Unlock()
 	if err != nil {
 		cc.Logger.Error("Error reading messageboard", "err", err)
 	}
